@@ -399,6 +399,129 @@ def r_foreach(body):
 
 
 
+def _method_closure_calls(body, method):
+    """yield (match, close_index, pattern, closure_body, recv_start, recv_text) for the first code occurrence of `.method(|PAT| BODY)`"""
+    m = code_mask(body)
+    for x in re.finditer(r"\.%s\(\s*" % re.escape(method), body):
+        if not m[x.start()]:
+            continue
+        close = match_close(body, m, x.end() - 1 - (len(x.group(0)) - len(x.group(0).rstrip())))
+        clos = body[x.end():close].strip()
+        cm = re.match(r"\|\s*([^|]*?)\s*\|\s*", clos)
+        if not cm:
+            raise Unsupported("R-%s: closure literal expected" % method)
+        pat = re.sub(r":\s*[^,]+$", "", cm.group(1).strip()).strip()
+        cbody = clos[cm.end():].strip()
+        j = _recv_start(body, m, x.start())
+        return (x, close, pat, cbody, j, body[j:x.start()].strip())
+    return None
+
+
+def r_retain(body, elem="usize"):
+    """RECV.retain(|PAT| COND);  ->  index loop that copies the elements satisfying COND, in order, into a fresh vector which then replaces RECV
+    (definition of Vec::retain for Copy elements: a non-Copy element type no longer type-checks -> undecided).  (R-retain)"""
+    log = []
+    n = 0
+    while True:
+        hit = _method_closure_calls(body, "retain")
+        if hit is None:
+            return body, log
+        x, close, pat, cbody, j, recv = hit
+        e = close + 1
+        while body[e] in " \t\n":
+            e += 1
+        if body[e] != ";":
+            raise Unsupported("R-retain: statement form expected")
+        sfx = "" if n == 0 else str(n)
+        new = ("{ let mut kept%s_: Vec<" + elem + "> = Vec::new(); let mut ri%s_: usize = 0; while ri%s_ < %s.len() { let %s = &%s[ri%s_]; if %s { kept%s_.push(%s[ri%s_]); } "
+               "ri%s_ = ri%s_ + 1; } %s = kept%s_; }") % (sfx, sfx, sfx, recv, pat, recv, sfx, cbody, sfx, recv, sfx, sfx, sfx, recv, sfx)
+        log.append(("R-retain", norm_ws(body[j:e + 1])[:200], norm_ws(new)[:300]))
+        body = body[:j] + new + body[e + 1:]
+        n += 1
+
+
+def r_sortbykey(body, ghosts):
+    """RECV.sort_by_key(|PAT| KEY);  ->  the keys are computed once per element by an index loop over the REAL key expression, then the prelude's
+    `sort_by_cached_keys_` (std's documented result: a permutation of the old content, non-decreasing in the key; ASSUMED) is called with them.
+    Sound for a key expression without side effects (`Fn` closure).  The ghost argument (the key as a spec function of the element) comes from
+    the unit, one per occurrence.  (R-sortbykey)"""
+    log = []
+    n = 0
+    while True:
+        hit = _method_closure_calls(body, "sort_by_key")
+        if hit is None:
+            return body, log
+        x, close, pat, cbody, j, recv = hit
+        e = close + 1
+        while body[e] in " \t\n":
+            e += 1
+        if body[e] != ";":
+            raise Unsupported("R-sortbykey: statement form expected")
+        if n >= len(ghosts):
+            raise AnchorLost("R-sortbykey: %d occurrences, %d ghost key functions stated" % (n + 1, len(ghosts)))
+        sfx = "" if n == 0 else str(n)
+        new = ("{ let mut keys%s_: Vec<BigNum> = Vec::new(); let mut si%s_: usize = 0; while si%s_ < %s.len() { let %s = &%s[si%s_]; let key_ = %s; keys%s_.push(key_); "
+               "si%s_ = si%s_ + 1; } sort_by_cached_keys_(&mut %s, &keys%s_, Ghost(%s)); }") % (
+                   sfx, sfx, sfx, recv, pat, recv, sfx, cbody, sfx, sfx, sfx, recv, sfx, ghosts[n])
+        log.append(("R-sortbykey", norm_ws(body[j:e + 1])[:200], norm_ws(new)[:300]))
+        body = body[:j] + new + body[e + 1:]
+        n += 1
+
+
+def r_rev(body):
+    """for PAT in RECV.iter().rev() BLOCK  ->  { let mut rkN_ = RECV.len(); while rkN_ > 0 { rkN_ = rkN_ - 1; let PAT = &RECV[rkN_]; BLOCK-content } }
+    (definition of reverse slice iteration; `break` / `continue` keep their meaning because the index moves first).  (R-rev)"""
+    log = []
+    n = 0
+    while True:
+        m = code_mask(body)
+        mo = None
+        for x in re.finditer(r"\bfor\s+([\w&\(\), ]+?)\s+in\s+", body):
+            if not m[x.start()]:
+                continue
+            k = body.find("{", x.end())
+            hdr = body[x.end():k]
+            if re.search(r"\.iter\(\)\s*\.rev\(\)\s*$", hdr):
+                mo = (x, k, hdr)
+                break
+        if mo is None:
+            return body, log
+        x, k, hdr = mo
+        recv = re.sub(r"\.iter\(\)\s*\.rev\(\)\s*$", "", hdr).strip()
+        be = match_close(body, m, k)
+        sfx = "" if n == 0 else str(n)
+        new = "{ let mut rk%s_: usize = %s.len(); while rk%s_ > 0 { rk%s_ = rk%s_ - 1; let %s = &%s[rk%s_]; %s } }" % (
+            sfx, recv, sfx, sfx, sfx, x.group(1).strip(), recv, sfx, body[k + 1:be])
+        log.append(("R-rev", norm_ws(body[x.start():k])[:200], norm_ws(new[:new.find("; let ") + 40])[:300]))
+        body = body[:x.start()] + new + body[be + 1:]
+        n += 1
+
+
+def r_position(body):
+    """RECV.iter().position(|PAT| A == B) with PAT one side of the comparison  ->  vec_position_eq_(&RECV, OTHER)
+    (prelude: index of the first element equal to OTHER, None when there is none: definition of Iterator::position for this closure).  (R-position)"""
+    log = []
+    while True:
+        hit = _method_closure_calls(body, "position")
+        if hit is None:
+            return body, log
+        x, close, pat, cbody, j, recv = hit
+        rs = re.sub(r"\s+", "", recv)
+        if not rs.endswith(".iter()"):
+            raise Unsupported("R-position: receiver is not `X.iter()`")
+        base = recv[:recv.rstrip().rfind(".iter()")].rstrip()
+        cm = re.match(r"^\s*(\**\w+)\s*==\s*(\**\w+)\s*$", cbody)
+        if not cm or pat not in (cm.group(1).lstrip("*"), cm.group(2).lstrip("*")):
+            raise Unsupported("R-position: closure is not an equality test on its parameter")
+        a, b = cm.group(1), cm.group(2)
+        other = b if a.lstrip("*") == pat else a
+        if (a.count("*") != b.count("*")):
+            raise Unsupported("R-position: operands of different reference depth")
+        new = "vec_position_eq_(&%s, %s)" % (base, other if a.count("*") == 0 else "&" + other.lstrip("*") if False else other)
+        log.append(("R-position", norm_ws(body[j:close + 1])[:200], norm_ws(new)[:200]))
+        body = body[:j] + new + body[close + 1:]
+
+
 def r_setappend(body, recv):
     """RECV.append(&mut E)  ->  set_append(&mut RECV, E)   for a BTreeSet receiver: vstd does not specify BTreeSet::append; the prelude's
     `set_append` carries std's documented semantics (union; the argument is drained).  (R-setappend)"""
@@ -1537,6 +1660,18 @@ def emit_fn(f, udir, unit_props, recs, log_global):
         if "continue" in rewrites:
             body, l = r_continue(body)
             log += l
+        if "retain" in rewrites:
+            body, l = r_retain(body, f.get("retain_elem", "usize"))
+            log += l
+        if "sortbykey" in rewrites:
+            body, l = r_sortbykey(body, f.get("sortbykey_ghost", []))
+            log += l
+        if "position" in rewrites:
+            body, l = r_position(body)
+            log += l
+        if "rev" in rewrites:
+            body, l = r_rev(body)
+            log += l
         if "flatmap" in rewrites:
             body, l = r_flatmap(body)
             log += l
@@ -1690,12 +1825,25 @@ def assemble(unit_name, canary=False, demote=()):
     types_log = []
     for rel in u.get("prelude", []):
         add("// ---- prelude: %s\n" % rel)
-        add(_read_rel(udir, rel) + "\n")
+        ptext = _read_rel(udir, rel)
+        for ps in u.get("prelude_subst", []):
+            # a shared prelude file taken with one declaration replaced (e.g. a type that is opaque there and extracted from /repo here)
+            if ps["file"] == rel:
+                if ptext.count(ps["from"]) != 1:
+                    raise AnchorLost("prelude_subst: `%s` occurs %d times in %s" % (ps["from"], ptext.count(ps["from"]), rel))
+                ptext = ptext.replace(ps["from"], ps["to"])
+        add(ptext + "\n")
     for t in u.get("type", []):
         add(emit_type(t, types_log))
     for rel in u.get("lemmas", []):
         add("// ---- lemmas: %s\n" % rel)
-        add(_read_rel(udir, rel) + "\n")
+        ltext = _read_rel(udir, rel)
+        for ps in u.get("prelude_subst", []):
+            if ps["file"] == rel:
+                if ltext.count(ps["from"]) != 1:
+                    raise AnchorLost("prelude_subst: `%s` occurs %d times in %s" % (ps["from"], ltext.count(ps["from"]), rel))
+                ltext = ltext.replace(ps["from"], ps["to"])
+        add(ltext + "\n")
     recs = []
     cur_impl = None
     fns = list(u.get("fn", []))
